@@ -1700,7 +1700,13 @@ impl SignedDuration {
     /// ```
     #[inline]
     pub const fn abs(self) -> SignedDuration {
-        SignedDuration::new_unchecked(self.secs.abs(), self.nanos.abs())
+        // `i64::abs` only panics on overflow when overflow checks are
+        // enabled. Otherwise it wraps, which would leave the seconds negative
+        // while the nanoseconds become positive.
+        let Some(secs) = self.secs.checked_abs() else {
+            panic!("absolute value of SignedDuration overflowed")
+        };
+        SignedDuration::new_unchecked(secs, self.nanos.abs())
     }
 
     /// Returns the absolute value of this signed duration as a
